@@ -181,30 +181,43 @@ def digest(obj) -> str:
     return hashlib.sha1(json.dumps(obj, sort_keys=True, default=str).encode()).hexdigest()[:16]
 
 
+class _Again(Exception):
+    """Raised by Check.finish when a further exploration round (fresh seeds) is due; see Check.finish."""
+
+
 def run_main(main):
     """Runs a check's main(); an unexpected exception while processing what the implementation returned is not an
     infrastructure failure: it is recorded as a broken correspondence (the harness could not make sense of the
     implementation's behaviour) and the run ends with a proper VIOLATION line and evidence file."""
+    while True:
+        try:
+            main()
+        except _Again:
+            continue
+        except SystemExit:
+            raise
+        except BaseException as ex:  # pylint: disable=broad-except
+            _run_main_failed(ex)
+        return
+
+
+def _run_main_failed(ex):
     import traceback
 
-    try:
-        main()
-    except SystemExit:
-        raise
-    except BaseException as ex:  # pylint: disable=broad-except
-        ck = Check.current
-        tb = traceback.format_exc()
-        if ck is None:
-            print(tb, file=sys.stderr)
-            sys.exit(2)
-        ck.correspondence_break(f"harness could not process the implementation's behaviour: {type(ex).__name__}: {ex}"[:300], {"traceback": tb[-1800:]})
-        ck.finish(rule="(run aborted by an exception while processing the implementation's output; see broken)")
+    ck = Check.current
+    tb = traceback.format_exc()
+    if ck is None:
+        print(tb, file=sys.stderr)
+        sys.exit(2)
+    ck.correspondence_break(f"harness could not process the implementation's behaviour: {type(ex).__name__}: {ex}"[:300], {"traceback": tb[-1800:]})
+    ck.finish(rule="(run aborted by an exception while processing the implementation's output; see broken)")
 
 
 class Check:
     """One run of one property's check."""
 
     current = None
+    _carry = None
 
     def guard(self, fn, *a, **kw):
         """Runs one case; an exception raised while handling the implementation's output becomes a broken correspondence
@@ -231,20 +244,34 @@ class Check:
         self.tier = a.tier if a.tier in ("quick", "thorough") else "quick"
         self.replay = a.replay
         self.seed = seed_from_env()
-        self.rng = random.Random(f"{pid}-{self.seed}")
-        self.t0 = time.time()
-        self.evaluations = 0
-        self.distinct = set()
-        self.hist = {}
-        self.samples = []
+        carry = Check._carry  # state of the earlier exploration rounds of this run (see finish)
+        Check._carry = None
+        self.round = carry["round"] + 1 if carry else 0
+        self.rng = random.Random(f"{pid}-{self.seed}" if self.round == 0 else f"{pid}-{self.seed}-round{self.round}")
+        self.t0 = carry["t0"] if carry else time.time()
+        self.evaluations = carry["evaluations"] if carry else 0
+        self.distinct = carry["distinct"] if carry else set()
+        self.hist = carry["hist"] if carry else {}
+        self.samples = carry["samples"] if carry else []
         self.obligations = []  # (name, ok, detail)
+        self._obligations_done = carry["obligations"] if carry else None
         self.violations = []  # dict
         self.broken = []  # broken proof obligations / correspondences (no failing input yet)
         self.known_hits = []
-        self.traces = 0
-        self.programs = 0
+        self.traces = carry["traces"] if carry else 0
+        self.programs = carry["programs"] if carry else 0
         self.extra = {}
         self.assumptions = []
+        if carry:
+            self.changed_sources = carry["changed_sources"]
+        else:
+            try:
+                sys.path.insert(0, os.path.join(VERIF, "harness", "extract"))
+                import pins  # noqa: E402
+
+                self.changed_sources = pins.changed(os.environ.get("CV_REPO", "/repo"), pid)
+            except Exception as ex:  # pylint: disable=broad-except
+                self.changed_sources = [f"<pins unavailable: {type(ex).__name__}>"]
         self.known = json.load(open(os.path.join(VERIF, "known_findings.json")))["findings"]
         self._driver = None
 
@@ -271,6 +298,9 @@ class Check:
 
     # ---------- proof obligations
     def lean_obligations(self, module: str, theorems: list):
+        if self._obligations_done is not None:  # a further exploration round of the same run: already discharged
+            self.obligations = list(self._obligations_done)
+            return all(ok for _, ok, _ in self.obligations)
         ok, log = LeanBuild.ensure()
         if not ok:
             for t in theorems:
@@ -307,6 +337,8 @@ class Check:
         return allok
 
     def obligation(self, name: str, ok: bool, detail=""):
+        if self.round and any(n == name and o == bool(ok) for n, o, _ in self.obligations):
+            return  # same obligation, already recorded by an earlier exploration round of this run
         self.obligations.append((name, bool(ok), detail))
         if not ok:
             self.broken.append({"what": name, "detail": detail})
@@ -344,7 +376,27 @@ class Check:
     def finish(self, level="proof", rule="", checker_cmd=None, exhaustive=None):
         if self._driver is not None:
             self._driver.close()
+            self._driver = None
         wall = time.time() - self.t0
+        # Source-change-directed search.  When a function this property depends on differs from the pinned tree
+        # (harness/extract/pins.json: the tree the model was validated against), nothing is reported for that alone,
+        # but a quick run that found nothing explores again with fresh seeds while the time budget lasts.
+        budget = float(os.environ.get("CV_ESCALATE_BUDGET", "300"))
+        if (
+            self.changed_sources
+            and not self.replay
+            and self.tier == "quick"
+            and not self.violations
+            and not self.broken
+            and self.round + 1 < int(os.environ.get("CV_ESCALATE_ROUNDS", "8"))
+            and wall + wall / (self.round + 1) < budget
+        ):
+            Check._carry = {
+                "round": self.round, "t0": self.t0, "evaluations": self.evaluations, "distinct": self.distinct, "hist": self.hist,
+                "samples": self.samples, "obligations": self.obligations, "traces": self.traces, "programs": self.programs,
+                "changed_sources": self.changed_sources,
+            }  # fmt: skip
+            raise _Again()
         n_obl = len(self.obligations)
         n_ok = sum(1 for _, ok, _ in self.obligations if ok)
         cov = {
@@ -367,6 +419,11 @@ class Check:
             cov["programs"] = self.programs
         if exhaustive is not None:
             cov["exhaustive"] = bool(exhaustive)
+        cov["source_pins"] = {
+            "changed_since_pinned": self.changed_sources[:20],
+            "exploration_rounds": self.round + 1,
+            "note": "a changed source is not a violation; it only makes a quick run explore further rounds with fresh seeds",
+        }
         cov.update(self.extra)
         for sig, what in self.known_hits:
             print(f"KNOWN-FINDING: property={self.pid} {sig}: {what}")
